@@ -138,6 +138,17 @@ func modelVector(L int) string {
 	return sb.String()
 }
 
+// dropForm removes one probe form's entry from a rendered vector.
+func dropForm(vec, form string) string {
+	var keep []string
+	for _, f := range strings.Fields(vec) {
+		if !strings.HasPrefix(f, form+":") {
+			keep = append(keep, f)
+		}
+	}
+	return strings.Join(keep, " ")
+}
+
 func runHistory(vm *otto.Otto, route int, src string) string {
 	out := guarded(func() (otto.Value, error) {
 		if route == 1 {
@@ -164,7 +175,8 @@ func runHeadroomFamily(r *engine.Run) {
 		fresh[L] = depthVector(vm, L)
 		if r.Shard == 0 && r.ReplayKey == "" {
 			// the fresh vector itself must be the one the limits model predicts
-			r.Check(fmt.Sprintf("fresh/L%d", L), fmt.Sprintf("remaining-depth vector of a fresh runtime, SetStackDepthLimit(%d)", L), modelVector(L), fresh[L])
+			// (the mixed eval/call form is compared differentially only: how it is charged is limits-mixed's subject)
+			r.Check(fmt.Sprintf("fresh/L%d", L), fmt.Sprintf("remaining-depth vector of a fresh runtime, SetStackDepthLimit(%d)", L), dropForm(modelVector(L), "eval"), dropForm(fresh[L], "eval"))
 		}
 	}
 	routeNames := []string{"run", "otto_eval"}
